@@ -3,6 +3,8 @@ EXTENDS HLV, Json
 Order3  == <<"a", "b", "c">>
 NoOrder == <<>>
 BehaviourExport == (Len(hist) = MaxSteps) => PrintT(<<"BEH", ToJson([steps |-> hist])>>)
+(* directed family: every behaviour (of any length up to MaxSteps) that ends in a pull between two merge holders *)
+DirectedExport == (hist # <<>> /\ hist[Len(hist)].x) => PrintT(<<"BEH", ToJson([steps |-> hist])>>)
 
 (* codec universe: every structurally valid vector over the three sources and three values
    (cv anywhere; every other source absent, in mv or in pv; the cv source may also sit in mv with another value) *)
